@@ -31,9 +31,23 @@ fn check_writer(ctx: &mut Ctx, label: &str, obj: &dyn AttributeWrite, value_len:
         let mut dest = vec![FILL; padded_want + 3];
         let ret = raw.write_into(&mut dest).map_err(|e| format!("{e:?}"));
         results.push((3, ret, dest));
-        (via_raw, padded, obj.length(), raw.length(), results)
+        // further paths to the same bytes: the header-only writers, the owned raw attribute, a second
+        // to_raw() (no hidden state), the raw attribute re-parsed from its own bytes
+        let mut alt: Vec<(&'static str, Vec<u8>)> = vec![];
+        let mut h = vec![FILL; 6];
+        let hr = obj.write_header(&mut h);
+        alt.push(("write_header", if hr.is_ok() && h[4..] == [FILL, FILL] { h[..4].to_vec() } else { vec![] }));
+        let mut h2 = vec![FILL; 5];
+        let n2 = obj.write_header_unchecked(&mut h2);
+        alt.push(("write_header_unchecked", if n2 == 4 && h2[4] == FILL { h2[..4].to_vec() } else { vec![] }));
+        let mut h3 = vec![FILL; 3];
+        let short_hdr_ok = matches!(obj.write_header(&mut h3), Err(StunWriteError::TooSmall { expected: 4, actual: 3 })) && h3 == [FILL; 3];
+        alt.push(("to_raw().into_owned().to_bytes()", obj.to_raw().into_owned().to_bytes()));
+        alt.push(("second to_raw().to_bytes()", obj.to_raw().to_bytes()));
+        alt.push(("RawAttribute::from_bytes(bytes).to_bytes()", RawAttribute::from_bytes(&via_raw).map(|a| a.to_bytes()).unwrap_or_default()));
+        (via_raw, padded, obj.length(), raw.length(), results, alt, short_hdr_ok)
     });
-    let (via_raw, padded, len, rawlen, results) = match r {
+    let (via_raw, padded, len, rawlen, results, alt, short_hdr_ok) = match r {
         Err(p) => {
             ctx.violation("C12", "no-panic", "AttributeWriteExt::write_into", label, w, "bytes".into(), format!("panic: {} at {}", p.msg, p.loc));
             return;
@@ -71,6 +85,25 @@ fn check_writer(ctx: &mut Ctx, label: &str, obj: &dyn AttributeWrite, value_len:
             );
             return;
         }
+    }
+    for (how, bytes) in &alt {
+        let want: &[u8] = if how.starts_with("write_header") { &via_raw[..4] } else { &via_raw[..] };
+        if bytes.as_slice() != want {
+            ctx.violation(
+                "C12",
+                "alternative-path-equals-raw",
+                "AttributeWrite",
+                &format!("{label},{how}"),
+                w,
+                format!("{how} = {}", hex(&want[..want.len().min(48)])),
+                hex(&bytes[..bytes.len().min(48)]),
+            );
+            return;
+        }
+    }
+    if !short_hdr_ok {
+        ctx.violation("C12", "short-destination-refused", "AttributeWriteExt::write_header", label, w, "Err(TooSmall{expected: 4, actual: 3}) and nothing written".into(), "something else".into());
+        return;
     }
     ctx.count("writers-compared");
     // every destination shorter than the padded length
